@@ -566,30 +566,41 @@ Qed.
 Lemma RInv_keep s s' : time s' = time s -> wd s' = wd s -> fd s' = fd s -> RInv s -> RInv s'.
 Proof. intros Et Ew Ef [A B]. unfold RInv, wk. rewrite Et, Ew, Ef. split; assumption. Qed.
 
+Lemma initialize_lists s t : o_init_state o = true -> t < nT c ->
+  aw (td (initialize c o s) t) = [] /\ af (td (initialize c o s) t) = []
+  /\ stof (initialize c o s) t <> TWorkingAdd /\ stof (initialize c o s) t <> TWorking.
+Proof.
+  intros Hs Ht. unfold initialize, stof. rewrite Hs. cbn [td with_cd].
+  match goal with |- context [check_ready c (update_pert c 0 ?x)] => set (s1 := x) end.
+  assert (E1 : forall y, aw (td (check_ready c y) t) = aw (td y t) /\ af (td (check_ready c y) t) = af (td y t)
+                        /\ (st (td (check_ready c y) t) = TWorkingAdd -> st (td y t) = TWorkingAdd)
+                        /\ (st (td (check_ready c y) t) = TWorking -> st (td y t) = TWorking)).
+  { intros y. unfold check_ready. cbn [td with_td]. rewrite tab_spec. destruct (t <? nT c); [|repeat split; auto].
+    destruct (is_none (st (td y t)) && ready_gate c y t); repeat split; auto; cbn; discriminate. }
+  destruct (E1 (update_pert c 0 s1)) as (Ea & Ef & Est & Est').
+  destruct (keeps_update_pert c 0 s1 t) as (K1 & _ & K3 & K4).
+  rewrite Ea, Ef, K3, K4. unfold s1. cbn [td with_cpl]. rewrite tab_spec. apply Nat.ltb_lt in Ht. rewrite Ht.
+  split; [destruct (o_init_log o && exempt c t); reflexivity|]. split; [destruct (o_init_log o && exempt c t); reflexivity|].
+  split.
+  - intros F. apply Est in F. rewrite K1 in F. unfold s1 in F. cbn [td with_cpl] in F. rewrite tab_spec, Ht in F.
+    destruct (o_init_log o && exempt c t); discriminate.
+  - intros F. apply Est' in F. rewrite K1 in F. unfold s1 in F. cbn [td with_cpl] in F. rewrite tab_spec, Ht in F.
+    destruct (o_init_log o && exempt c t); discriminate.
+Qed.
+
+Lemma Q0_initialize s : o_init_state o = true -> Q0 (initialize c o s).
+Proof.
+  intros Hs. split; [apply AInv_initialize; exact Hs|]. split.
+  - intros t Ht. destruct (initialize_lists s t Hs Ht) as (Ea & Ef & _). rewrite Ea, Ef.
+    split; [apply solo_ok_nil|split; [apply solo_ok_nil|intros _; constructor]].
+  - split; [intros t Ht; apply (initialize_lists s t Hs Ht)|]. intros t Ht _. destruct (initialize_lists s t Hs Ht) as (Ea & Ef & _). split; assumption.
+Qed.
+
 Theorem resources_all_runs s : o_init_state o = true ->
   Forall (fun ob : obs => match snd (fst ob) with PUpdated => True | _ => RInv (snd ob) end) (snd (simulate c o s)).
 Proof.
   intros Hs. destruct (simulate_trace c o s) as (tr & Htr & Esnd). rewrite Esnd.
-  assert (H0 : Q0 (initialize c o s)).
-  { split; [apply AInv_initialize; exact Hs|].
-    assert (Einit : forall t, t < nT c -> aw (td (initialize c o s) t) = [] /\ af (td (initialize c o s) t) = []
-                                          /\ stof (initialize c o s) t <> TWorkingAdd).
-    { intros t Ht. unfold initialize, stof. rewrite Hs. cbn [td with_cd].
-      match goal with |- context [check_ready c (update_pert c 0 ?x)] => set (s1 := x) end.
-      assert (E1 : forall y, aw (td (check_ready c y) t) = aw (td y t) /\ af (td (check_ready c y) t) = af (td y t)
-                            /\ (st (td (check_ready c y) t) = TWorkingAdd -> st (td y t) = TWorkingAdd)).
-      { intros y. unfold check_ready. cbn [td with_td]. rewrite tab_spec. destruct (t <? nT c); [|repeat split; auto].
-        destruct (is_none (st (td y t)) && ready_gate c y t); repeat split; auto. cbn. discriminate. }
-      destruct (E1 (update_pert c 0 s1)) as (Ea & Ef & Est).
-      destruct (keeps_update_pert c 0 s1 t) as (K1 & _ & K3 & K4).
-      rewrite Ea, Ef, K3, K4. unfold s1. cbn [td with_cpl]. rewrite tab_spec. apply Nat.ltb_lt in Ht. rewrite Ht.
-      split; [destruct (o_init_log o && exempt c t); reflexivity|]. split; [destruct (o_init_log o && exempt c t); reflexivity|].
-      intros F. apply Est in F. rewrite K1 in F. unfold s1 in F. cbn [td with_cpl] in F. rewrite tab_spec, Ht in F.
-      destruct (o_init_log o && exempt c t); discriminate. }
-    split.
-    - intros t Ht. destruct (Einit t Ht) as (Ea & Ef & _). rewrite Ea, Ef.
-      split; [apply solo_ok_nil|split; [apply solo_ok_nil|intros _; constructor]].
-    - split; [intros t Ht; apply (Einit t Ht)|]. intros t Ht _. destruct (Einit t Ht) as (Ea & Ef & _). split; assumption. }
+  pose proof (Q0_initialize s Hs) as H0.
   destruct (trace_invariant c o Q0 Q0 (fun x => Q0 x /\ RInv x) (fun x => Q0 x /\ RInv x) (fun x => Q0 x /\ RInv x)
               (fun x Hx => Q0_update x Hx)
               (fun x Hx => match Hx with conj A (conj B (conj C D)) =>
